@@ -3,13 +3,13 @@
 package mc
 
 import (
-	"runtime/debug"
 	"bufio"
 	"encoding/json"
 	"fmt"
 	"os"
 	"os/exec"
 	"runtime"
+	"runtime/debug"
 	"sort"
 	"strconv"
 	"strings"
@@ -66,19 +66,19 @@ type Phase struct {
 
 // Config of one property check on Engine W.
 type Config struct {
-	Property     string
-	Tier         string
-	Fixture      FixtureCfg
-	Phases       []Phase
-	Oracles      []*Oracle
-	ValidateMod  int           // validate every n-th explored path linearly on a forked instance
-	Deadline     time.Duration // wall-clock budget for exploration
-	Assumptions  []string
-	Rule         string
-	LeafHook     func(x *Explorer, path []string) // optional: extra exploration at leaves
+	Property    string
+	Tier        string
+	Fixture     FixtureCfg
+	Phases      []Phase
+	Oracles     []*Oracle
+	ValidateMod int           // validate every n-th explored path linearly on a forked instance
+	Deadline    time.Duration // wall-clock budget for exploration
+	Assumptions []string
+	Rule        string
+	LeafHook    func(x *Explorer, path []string) // optional: extra exploration at leaves
 	// NodeHook runs extra exploration below a node (must leave the instance at the node's state)
-	NodeHook func(x *Explorer, depth int, path []string, root string, phase int)
-	BlockFailure bool                              // judge block failures (C18)
+	NodeHook      func(x *Explorer, depth int, path []string, root string, phase int)
+	BlockFailure  bool     // judge block failures (C18)
 	Variants      []string // fixture variants to run (first = default)
 	VariantPhases []Phase  // phases used for the non-default variants (nil = same)
 }
@@ -114,9 +114,9 @@ var Clauses = &Counter{}
 // ---------------------------------------------------------------------------------------------
 
 type unit struct {
-	Phase  int   `json:"phase"`
+	Phase  int    `json:"phase"`
 	Root   string `json:"root"`
-	Prefix []int `json:"prefix"`
+	Prefix []int  `json:"prefix"`
 }
 
 type foundViolation struct {
@@ -128,24 +128,24 @@ type foundViolation struct {
 }
 
 type unitResult struct {
-	Unit        unit              `json:"unit"`
-	Transitions int64             `json:"transitions"`
-	Blocked     int64             `json:"blocked"`
-	FailedTxs   int64             `json:"failed_txs"`
-	OkTxs       int64             `json:"ok_txs"`
-	Keys        []string          `json:"keys"`
-	Outcomes    []string          `json:"outcomes"`
-	Violations  []foundViolation  `json:"violations"`
-	Validated   int64             `json:"validated"`
-	ValidateErr string            `json:"validate_err"`
-	Samples     [][]string        `json:"samples"`
-	Clauses     map[string]int64  `json:"clauses"`
-	Incomplete  bool              `json:"incomplete"`
-	HarnessErr  string            `json:"harness_err"`
-	MaxDepth    int               `json:"max_depth"`
-	OpFail      map[string]int64  `json:"op_fail"`
-	OpOk        map[string]int64  `json:"op_ok"`
-	BlockedAt   []string          `json:"blocked_at"`
+	Unit        unit             `json:"unit"`
+	Transitions int64            `json:"transitions"`
+	Blocked     int64            `json:"blocked"`
+	FailedTxs   int64            `json:"failed_txs"`
+	OkTxs       int64            `json:"ok_txs"`
+	Keys        []string         `json:"keys"`
+	Outcomes    []string         `json:"outcomes"`
+	Violations  []foundViolation `json:"violations"`
+	Validated   int64            `json:"validated"`
+	ValidateErr string           `json:"validate_err"`
+	Samples     [][]string       `json:"samples"`
+	Clauses     map[string]int64 `json:"clauses"`
+	Incomplete  bool             `json:"incomplete"`
+	HarnessErr  string           `json:"harness_err"`
+	MaxDepth    int              `json:"max_depth"`
+	OpFail      map[string]int64 `json:"op_fail"`
+	OpOk        map[string]int64 `json:"op_ok"`
+	BlockedAt   []string         `json:"blocked_at"`
 }
 
 // Explorer is the per-process exploration state.
@@ -216,7 +216,9 @@ func (x *Explorer) measures() []Measure {
 func nz(s string) bool { return s != "" && s != "0" }
 
 // Record lets hooks report findings.
-func (x *Explorer) Record(f Finding, root string, trace []string, phase int) { x.record(f, root, trace, phase) }
+func (x *Explorer) Record(f Finding, root string, trace []string, phase int) {
+	x.record(f, root, trace, phase)
+}
 
 // CountTransition lets hooks account for the blocks they execute.
 func (x *Explorer) CountTransition() { x.res.Transitions++ }
